@@ -9,6 +9,13 @@ def main():
         cs = spec.cfgs("quick", rng)
         for c in cs + [dict(c, tapi=1) for k, c in enumerate(cs) if c["n"] <= 5 and (k % 2 == 0 or (c["plans"] and c["payload"]))]:
             for v in spec.variants: jobs.append(("m", c, v, tuple(spec.extra_flags), spec.cxx, spec.opt))
+    for c in props.cfgs_san("quick", random.Random(1)): jobs.append(("m", c, "include", tuple(props.SAN), "g++", "-O0"))
+    for c in props.cfgs_copies("quick", random.Random(7)):
+        for v in ("include", "development"): jobs.append(("m", c, v, (), "g++", "-O0"))
+    for c in props.cfgs_features("quick", random.Random(1)):
+        for v in ("include", "development"): jobs.append(("m", c, v, (), "g++", "-O0"))
+    for (c, _s, _src) in props.plan_templates("quick"):
+        for v in ("include", "development"): jobs.append(("m", c, v, (), "g++", "-O0"))
     import glob
     from . import engine
     for path in glob.glob(os.path.join(common.CORPUS, "*", "*.script")):
